@@ -442,6 +442,9 @@ def orc_macrel(pid, impl):
     if pid == "C12" and (d["eq"] != "1" or d["cmp"] != "eq" or d["he"] != "1" or d.get("lieq", "1") != "1" or d.get("licmp", "eq") != "eq"
                          or d.get("lihe", "1") != "1"):
         return "a macro-built value and the parsed value of the same literal (equal text: %s) are not equal / Equal / equally hashed: %s" % (d["se"], impl)
+    if pid == "C15" and (d.get("ideq") != "1" or d.get("lieq", "1") != "1"):
+        return ("the subtags of a macro-built value are not the subtags run-time parsing gives for the same literal (`und` is the empty language "
+                "however it is built): %s" % impl)
     if pid == "C13" and d.get("ideq") != "1":
         return "locale!(..) has another id than the LanguageIdentifier of the same literal: %s" % impl
     return None
@@ -556,6 +559,8 @@ def orc_subeq(ctx, op, req, impl, model, spec):
 
 
 def orc_c15(ctx, op, req, impl, model, spec):
+    if op == "macrel":
+        return orc_macrel("C15", impl)
     if impl in ("notutf8",):
         return None
     if op == "subeq":
@@ -956,9 +961,9 @@ PROPS = {
                 thorough_configs=[("none", ()), ("likely", ("likely",)), ("serde", ("serde",)), ("macros", ("macros",)),
                                   ("likely-serde", ("likely", "serde")), ("likely-macros", ("likely", "macros")),
                                   ("macros-serde", ("macros", "serde")), ("all", ALL_FEATURES)]),
-    "C15": Prop("C15", [("specials", "lang,script,region,variant,langstr")] + S(["subtag"], "lang,script,region,variant,langstr,substr script,substr region,substr variant")
+    "C15": Prop("C15", [("macvals", None)] + [("specials", "lang,script,region,variant,langstr")] + S(["subtag"], "lang,script,region,variant,langstr,substr script,substr region,substr variant")
                 + [("langmisc", None), ("glue_misc", None)],
-                {"lang", "script", "region", "variant", "langstr", "langopt", "langdefault", "rawref", "subeq", "substr"}, proj_c15, orc_c15,
+                {"lang", "script", "region", "variant", "langstr", "langopt", "langdefault", "rawref", "subeq", "substr", "macrel"}, proj_c15, orc_c15,
                 design_ref="4/C15"),
     "C17": Prop("C17", [("cldrhist", None)] + [("sweep", "liparts,locparts,hist")] + [("parts", None), ("glue_misc", None), ("hist", None)], {"liparts", "locparts", "fromparts", "raw", "rawref", "hist"}, proj_c17, orc_c17,
                 design_ref="4/C17"),
